@@ -642,6 +642,7 @@ pub fn dump(what: &str) {
         "c20" => crate::c20::dump_tables(),
         "zesc" => crate::c04::dump_tables(),
         "c06" => crate::c06::dump_tables(),
+        "scanread" => crate::c11::dump_tables(),
         _ => {
             eprintln!("unknown dump {what}");
             std::process::exit(2);
